@@ -224,7 +224,7 @@ def run_accumulator_compiled(case):
     n, depth = case["n"], case["depth"]
     if coo_utils.COO_QUICKSORT_LIMIT != 3:
         return res([viol("harness:hook-inactive", "VECTORIZERS_VERIF hook did not lower COO_QUICKSORT_LIMIT (is %r)" % coo_utils.COO_QUICKSORT_LIMIT)])
-    events = [(r, c, 1.0) for (r, c) in KEY_ALPHABET]
+    events = [(r, c, 1.0) for (r, c) in KEY_ALPHABET][: case.get("keys", 4)]
     v = {}
     paths = 0
     flushed = 0
@@ -646,6 +646,9 @@ def subchecks(tier, seed):
         total=len(acc), kind="states", shards=len(acc) // 4 + 1, setup=_check_alloc_expression,
         nontrivial_rule="configuration in which at least one flush or growth happened"))
     hc = [{"n": n, "depth": 6 if tier == "quick" else 8} for n in reachable_sizes()[: (3 if tier == "quick" else 8)]]
+    # fewer keys, longer histories: several flushes in a row, so that merges cascade over more than one level
+    hc += [{"n": n, "depth": 8 if tier == "quick" else 10, "keys": 3} for n in reachable_sizes()[:2]]
+    hc += [{"n": n, "depth": 13 if tier == "quick" else 16, "keys": 2} for n in reachable_sizes()[:2]]
     subs.append(Sub(
         "a_accumulator_compiled", "H", lambda: iter(hc), run_accumulator_compiled, total=len(hc), kind="compiled-traces", shards=len(hc),
         describe="every append history of length <= %d over the 4-key alphabet replayed on the compiled accumulator with the hook threshold 3 (VECTORIZERS_VERIF=1), buffer sizes %s; transitions = histories validated" % (hc[0]["depth"], [x["n"] for x in hc]),
